@@ -295,51 +295,16 @@ func (r *beRun) modeJanitor() {
 		return
 	}
 
-	for i := range r.sc.Root {
-		op := &r.sc.Root[i]
+	seenWakes := r.janitor.Wakes
 
-		if op.Kind != "sleep" {
-			time.Sleep(1)
-
-			if op.Kind == "restoreNever" {
-				// an entry without expiry (E=0) arrives through Restore, whatever the target's TimeToLive
-				r.restoreNever(m, i, op)
-				out.probe("entry_without_expiry_restored")
-
-				continue
-			}
-
-			rec := r.exec(0, i, op)
-
-			if op.Kind == "write" && op.HasTTL && op.TTLNs != 0 {
-				explicitTTL = true
-			}
-
-			// keep the model in step (the sequential oracle proper is C07's)
-			one := []*beRec{rec}
-			save := len(out.Violations)
-			m.checkSeq("C11.model", one)
-
-			if len(out.Violations) > save {
-				return
-			}
-
-			continue
+	// checkCycles compares the surviving key set with the reference map after cleanup cycles ran.
+	checkCycles := func() bool {
+		if r.janitor.Wakes == seenWakes {
+			return true
 		}
 
-		before := r.janitor.Wakes
-
-		out.fault("clock_jump")
-
-		if v := e.s.Advance(dur(op.SleepNs)); v != zs.Quiescent {
-			out.Internal = "advance: " + v.String() + " " + e.s.StuckInfo
-
-			return
-		}
-
-		if r.janitor.Wakes == before {
-			continue
-		}
+		before := seenWakes
+		seenWakes = r.janitor.Wakes
 
 		cycles += r.janitor.Wakes - before
 		for i := 0; i < r.janitor.Wakes-before; i++ {
@@ -416,6 +381,74 @@ func (r *beRun) modeJanitor() {
 		}
 
 		if len(out.Violations) > 0 {
+			return false
+		}
+
+		return true
+	}
+
+	// pump lets a janitor that was woken by a micro-sleep of the root run its cycle to the end.
+	pump := func() bool {
+		if r.janitor.Wakes == seenWakes {
+			return true
+		}
+
+		if v := e.s.Run(); v != zs.Quiescent {
+			out.Internal = "pump: " + v.String() + " " + e.s.StuckInfo
+
+			return false
+		}
+
+		e.s.SettleRoot()
+
+		return checkCycles()
+	}
+
+	for i := range r.sc.Root {
+		op := &r.sc.Root[i]
+
+		if op.Kind != "sleep" {
+			time.Sleep(1)
+
+			if !pump() {
+				return
+			}
+
+			if op.Kind == "restoreNever" {
+				// an entry without expiry (E=0) arrives through Restore, whatever the target's TimeToLive
+				r.restoreNever(m, i, op)
+				out.probe("entry_without_expiry_restored")
+
+				continue
+			}
+
+			rec := r.exec(0, i, op)
+
+			if op.Kind == "write" && op.HasTTL && op.TTLNs != 0 {
+				explicitTTL = true
+			}
+
+			// keep the model in step (the sequential oracle proper is C07's)
+			one := []*beRec{rec}
+			save := len(out.Violations)
+			m.checkSeq("C11.model", one)
+
+			if len(out.Violations) > save {
+				return
+			}
+
+			continue
+		}
+
+		out.fault("clock_jump")
+
+		if v := e.s.Advance(dur(op.SleepNs)); v != zs.Quiescent {
+			out.Internal = "advance: " + v.String() + " " + e.s.StuckInfo
+
+			return
+		}
+
+		if !checkCycles() {
 			return
 		}
 	}
